@@ -19,6 +19,7 @@
  *   --timeout SEC         watchdog (default 60)
  *   --stdout-prefix P     stdout of command i goes to P.i
  *   --all-in-op           treat every call as inside an operation (no markers needed)
+ *   --nosched-dirs        stat/access of an existing directory is never a scheduling point
  */
 #define _GNU_SOURCE
 #include <errno.h>
@@ -122,6 +123,7 @@ static long delay_max_us = 0;
 static int emulate_ficlone = 0;
 static int timeout_s = 60;
 static int all_in_op = 0;
+static int nosched_dirs = 0;
 static long visible_count = 0;
 static long seq = 0;
 static long decisions = 0;
@@ -611,6 +613,13 @@ static int on_entry(struct thr *t) {
     /* scheduling */
     if (sched_on) {
         int sp = !is_nosched(nm);
+        if (sp && nosched_dirs && t->npaths == 1 &&
+            (t->nr == SYS_stat || t->nr == SYS_lstat || t->nr == 332 || t->nr == SYS_newfstatat ||
+             t->nr == SYS_access || t->nr == SYS_faccessat || t->nr == 439)) {
+            /* looking at a directory that already exists is an idempotent observation */
+            struct stat stb;
+            if (lstat(t->paths[0], &stb) == 0 && S_ISDIR(stb.st_mode)) sp = 0;
+        }
         if (sp) {
             /* calls that only touch the process's own unpublished temp file are not scheduling points */
             int all_private = 1, any = 0;
@@ -724,6 +733,7 @@ int main(int argc, char **argv) {
         else if (!strcmp(argv[i], "--timeout") && i + 1 < argc) timeout_s = atoi(argv[++i]);
         else if (!strcmp(argv[i], "--stdout-prefix") && i + 1 < argc) strncpy(stdout_prefix, argv[++i], PATHMAX - 1);
         else if (!strcmp(argv[i], "--all-in-op")) all_in_op = 1;
+        else if (!strcmp(argv[i], "--nosched-dirs")) nosched_dirs = 1;
         else die("unknown option %s", argv[i]);
     }
     if (i >= argc) die("no command");
